@@ -155,6 +155,7 @@ type node struct {
 	id   *keys.Identity
 	rm   network.ResourceManager
 	ps   peerstore.Peerstore
+	up   transport.Upgrader // the host's upgrader (Noise + yamux), for further transports of the same host
 }
 
 func (n *node) Close() {
@@ -211,7 +212,7 @@ func newNode(w *world, kind string, id *keys.Identity, ip string, listen bool) (
 			return fail(err, closeSW, closeRM)
 		}
 	}
-	n := &node{kind: kind, id: id, rm: rm, ps: ps}
+	n := &node{kind: kind, id: id, rm: rm, ps: ps, up: u}
 	switch kind {
 	case "basic":
 		h, err := bhost.NewHost(sw, &bhost.HostOpts{EventBus: bus})
